@@ -125,7 +125,7 @@ class Rec:
             self._mon(monitor)["events"] += 1
             return False, e
         except Exception as e:  # noqa
-            self.check(monitor, False, site=site, tags=tags,
+            self.check(monitor, False, site=site, tags=dict(tags or {}, exc=type(e).__name__),
                        observed="%s: %s" % (type(e).__name__, e),
                        detail=traceback.format_exc()[-1500:])
             return False, e
